@@ -221,9 +221,10 @@ def main(run):
     for i in range(3 if quick else 40):
         traces.append(key_group(rng, 4, 64, 16384))
         run.case(('keys', i))
-    for i in range(6 if quick else 60):
+    for i in range(8 if quick else 60):
         g = ['plain', 'shared', 'mixed'][i % 3]
-        traces.append(repo_suffix_group(rng, run.seed * 100 + i, g, [1024, 4096, 512][i % 3], 8, [128, 256][i % 2], with_small=bool(i % 2)))
+        mn_, mx_ = [(8, 128), (8, 256), (6, 250), (10, 126)][i % 4]      # also limits that are not multiples of the alignment
+        traces.append(repo_suffix_group(rng, run.seed * 100 + i, g, [1024, 4096, 512][i % 3], mn_, mx_, with_small=bool(i % 2)))
         run.case(('repo-suffix', i, g))
     pad = {'min': 32, 'max': 512, 'events': [realign(rng, run.seed * 10 + i, g) for i, g in enumerate(['plain', 'shared'] if quick else ['plain', 'shared', 'same', 'indep', 'mixed', 'plain'])],
            'resync': 0, 'keyhex': '', 'stream_len': 0, 'kind': 'same file at two aligned stream positions of real snapshots'}
